@@ -6,10 +6,12 @@ import (
 	"errors"
 	"fmt"
 	"io"
+	"net"
 	"net/http"
 	"net/url"
 	"strings"
 	"sync"
+	"syscall"
 	"time"
 )
 
@@ -41,7 +43,7 @@ type Fault struct {
 }
 
 func (f Fault) String() string {
-	if f.Kind == FStatus || f.Kind == FTruncate || f.Kind == FBodyStall || (f.Kind == FRedirect && f.Param != 0) {
+	if f.Kind == FStatus || f.Kind == FTruncate || f.Kind == FBodyStall || (f.Kind == FRedirect && f.Param != 0) || (f.Kind == FConnErr && f.Param != 0) {
 		return fmt.Sprintf("%s(%d)", faultNames[f.Kind], f.Param)
 	}
 	return faultNames[f.Kind]
@@ -173,6 +175,25 @@ func (n *Net) All() []*Exchange { return n.all }
 
 var errSimConn = errors.New("sim: connection refused")
 
+// connError returns one of the typed errors real transports produce.
+func connError(kind int, host string) error {
+	switch kind {
+	case 1:
+		return &net.DNSError{Err: "no such host", Name: host, IsNotFound: true}
+	case 2:
+		return &net.DNSError{Err: "server misbehaving", Name: host, IsTemporary: true}
+	case 3:
+		return &net.OpError{Op: "dial", Net: "tcp", Err: syscall.ECONNREFUSED}
+	case 4:
+		return io.ErrUnexpectedEOF
+	case 5:
+		return &net.OpError{Op: "read", Net: "tcp", Err: syscall.ECONNRESET}
+	case 6:
+		return io.EOF
+	}
+	return errSimConn
+}
+
 // sleepCtx waits d of (fake) time or until ctx is done.
 func sleepCtx(ctx context.Context, d time.Duration) error {
 	if d <= 0 {
@@ -241,7 +262,7 @@ func (n *Net) RoundTrip(req *http.Request) (*http.Response, error) {
 	switch x.Fault.Kind {
 	case FConnErr:
 		x.Rec.Returned, x.Rec.TReturn, x.Rec.Outcome = true, time.Now(), "conn_error"
-		return nil, errSimConn
+		return nil, connError(x.Fault.Param, req.URL.Host)
 	case FPanic:
 		x.Rec.Returned, x.Rec.TReturn, x.Rec.Outcome = true, time.Now(), "panic"
 		panic(n.PanicValue)
